@@ -405,19 +405,19 @@ def run_check(prop_id, tier, seed=None, workers=None, shards=None, examples=None
             print(f"KNOWN-FINDING: property={prop_id} {k['what']} [{k['id']}; met {known_seen[k['id']]}x in search]")
 
     wall = time.time() - t0
+    ev = build_evidence(mod, prop_id, tier, seed, tcfg, results, det_ok, len(det_pairs), known_seen,
+                        violations, harness_errors, wall, workers, lines)
     if write_evidence:
-        ev = build_evidence(mod, prop_id, tier, seed, tcfg, results, det_ok, len(det_pairs), known_seen,
-                            violations, harness_errors, wall, workers, lines)
         os.makedirs(os.path.join(VERIF, "evidence"), exist_ok=True)
         with open(os.path.join(VERIF, "evidence", f"{prop_id}.json"), "w") as f:
             json.dump(ev, f, indent=1, sort_keys=True)
-        c = ev["coverage"]
-        print(f"[{prop_id}] worlds={c['worlds']} runs={c['evaluations']} distinct_nontrivial={c['distinct_nontrivial']} "
-              f"trace_digests={c['trace_digests_distinct']} runs/h={c['runs_per_hour']} wall={wall:.1f}s "
-              f"determinism_ok={det_ok}", flush=True)
-        zero = [p for p in getattr(mod, "PROBES", ()) if not c["probes"].get(p)]
-        if zero:
-            print(f"[{prop_id}] probes at zero: {zero}")
+    c = ev["coverage"]
+    print(f"[{prop_id}] worlds={c['worlds']} runs={c['evaluations']} distinct_nontrivial={c['distinct_nontrivial']} "
+          f"trace_digests={c['trace_digests_distinct']} runs/h={c['runs_per_hour']} wall={wall:.1f}s "
+          f"determinism_ok={det_ok}" + ("" if write_evidence else " (evidence file not rewritten)"), flush=True)
+    zero = [p for p in getattr(mod, "PROBES", ()) if not c["probes"].get(p)]
+    if zero:
+        print(f"[{prop_id}] probes at zero: {zero}")
     if harness_errors:
         for h in harness_errors[:5]:
             print("HARNESS-ERROR " + h, flush=True)
